@@ -1869,6 +1869,13 @@ class Engine:
                     exc_isinstance(result.cls, c) for c in fc.raises)):
             # vacuity guard: `False` at a permitted exit must NOT be provable
             self.oblige(st, "canary", line, z3.BoolVal(False), [])
+        # in postconditions parameter names denote the values passed in
+        # (rebinding a parameter inside the body is invisible to the caller)
+        post_locals = dict(st.locals)
+        for k_, v_ in st.old["locals"].items():
+            if v_ is not None:
+                post_locals[k_] = v_
+        st.locals = post_locals
         if kind == "normal":
             exits["normal"] += 1
             st.ghost["result"] = result
